@@ -113,6 +113,10 @@ func (s *MemCachedStore) Get(key []byte) ([]byte, error) {
 func (s *MemCachedStore) Put(key, value []byte) {
 	newKey := string(key)
 	vcopy := bytes.Clone(value)
+	if vcopy == nil {
+		// A nil value is the deletion marker of the cache, Put never deletes.
+		vcopy = []byte{}
+	}
 	s.lock()
 	put(s.chooseMap(key), newKey, vcopy)
 	s.unlock()
